@@ -340,6 +340,11 @@ func (c *Ctx) classifyBound(info *types.Info, fd *ast.FuncDecl, e ast.Expr, dept
 							return "round"
 						}
 					}
+				case *ast.CallExpr:
+					// len(make([]T, n)) is n
+					if mk, ok := a.Fun.(*ast.Ident); ok && mk.Name == "make" && info.Uses[mk] == types.Universe.Lookup("make") && len(a.Args) >= 2 {
+						return c.classifyBound(info, fd, a.Args[1], depth+1)
+					}
 				}
 				return "other"
 			}
